@@ -78,7 +78,12 @@ fn check_snapshot(at: usize) -> Result<usize, Fail> {
     Ok(keys.len())
 }
 
+thread_local! {
+    static WEAKS: std::cell::RefCell<HashMap<u16, std::sync::Weak<raptorq::SourceBlockEncodingPlan>>> = std::cell::RefCell::new(HashMap::new());
+}
+
 pub struct Stats {
+    pub weak_checks: u64,
     pub clock_jumps: u64,
     pub jumped_s: u64,
     pub requests: u64,
@@ -89,7 +94,7 @@ pub struct Stats {
 }
 
 pub fn execute(h: &History, refs: &mut HashMap<(u16, u16, u8), Observed>) -> Result<Stats, Fail> {
-    let mut st = Stats { clock_jumps: 0, jumped_s: 0, requests: 0, max_cached: 0, hits: 0, evictions: 0, alias_pairs: 0 };
+    let mut st = Stats { weak_checks: 0, clock_jumps: 0, jumped_s: 0, requests: 0, max_cached: 0, hits: 0, evictions: 0, alias_pairs: 0 };
     let mut prev: Option<Req> = None;
     for (at, r) in h.reqs.iter().enumerate() {
         if r.jump_s > 0 {
@@ -141,7 +146,27 @@ pub fn execute(h: &History, refs: &mut HashMap<(u16, u16, u8), Observed>) -> Res
             return Err(Fail { oracle: "transparency".into(), detail: format!("{what} of the encoder for K={} T={} differ from the un-cached single-thread encoder", r.k, r.t), at });
         }
         let n = check_snapshot(at)?;
+        // hook H8: weak handles to everything the cache accounts for (read-only, no lookup)
+        WEAKS.with(|w| {
+            let mut w = w.borrow_mut();
+            for (k, h) in verif_plan_cache::snapshot_weak() {
+                w.insert(k, h);
+            }
+            // forget sizes whose plan is gone
+            w.retain(|_, h| h.strong_count() > 0);
+        });
         let (after_keys, _, _) = verif_plan_cache::snapshot();
+        // plans that are no longer accounted for in the cache but are still alive although no client
+        // holds them: kept by the cache outside its own book-keeping; they count towards the bound
+        let hidden: Vec<u16> = WEAKS.with(|w| w.borrow().iter().filter(|(k, w)| !after_keys.contains(k) && w.strong_count() > 0).map(|(k, _)| *k).collect());
+        if after_keys.len() + hidden.len() > verif_plan_cache::CAPACITY {
+            return Err(Fail {
+                oracle: "capacity-hidden".into(),
+                detail: format!("{} plans in the map plus {} evicted ones still kept alive by the cache (sizes {:?}) exceed the capacity {}", after_keys.len(), hidden.len(), hidden, verif_plan_cache::CAPACITY),
+                at,
+            });
+        }
+        st.weak_checks += 1;
         if before_keys.iter().any(|k| !after_keys.contains(k)) {
             st.evictions += 1;
         }
@@ -247,7 +272,7 @@ pub fn run(ctx: &Ctx) -> i32 {
         eprintln!("HARNESS-ERROR: the clock interposer does not move std::time::Instant");
         return 2;
     }
-    let mut total = Stats { clock_jumps: 0, jumped_s: 7, requests: 0, max_cached: 0, hits: 0, evictions: 0, alias_pairs: 0 };
+    let mut total = Stats { weak_checks: 0, clock_jumps: 0, jumped_s: 7, requests: 0, max_cached: 0, hits: 0, evictions: 0, alias_pairs: 0 };
     let mut violations = vec![];
     let mut runs = 0u64;
     let mut sample = None;
@@ -271,6 +296,7 @@ pub fn run(ctx: &Ctx) -> i32 {
             Ok(st) => {
                 total.requests += st.requests;
                 total.clock_jumps += st.clock_jumps;
+                total.weak_checks += st.weak_checks;
                 total.jumped_s += st.jumped_s;
                 total.max_cached = total.max_cached.max(st.max_cached);
                 total.hits += st.hits;
@@ -329,7 +355,7 @@ pub fn run(ctx: &Ctx) -> i32 {
         "flavour": "sequential (no shuttle: std Mutex/OnceLock, shipped capacity, real thread-local storage, one OS thread)",
         "capacity": verif_plan_cache::CAPACITY,
         "histories": runs, "requests": total.requests, "cache_hits": total.hits, "evictions_observed": total.evictions,
-        "max_plans_cached": total.max_cached, "clock_jumps_injected": total.clock_jumps, "simulated_idle_seconds": total.jumped_s,
+        "max_plans_cached": total.max_cached, "hidden_retention_checks": total.weak_checks, "clock_jumps_injected": total.clock_jumps, "simulated_idle_seconds": total.jumped_s,
         "clock_seam": "LD_PRELOAD interposer on clock_gettime/gettimeofday/time with a simulator-owned offset (sim/src/clockshim.c)", "back_to_back_requests_with_block_lengths_equal_mod_65536": total.alias_pairs,
         "wall_s": wall, "violations": violations.len(), "sample_history": sample, "tier": ctx.tier(), "seed": ctx.seed,
     });
